@@ -370,6 +370,45 @@ func (e *Env) linesStore(c *schema.Ctx, info *types.Info, fd *ast.FuncDecl, s *a
 			return false, "line offsets are relative to the file base: " + why
 		}
 	}
+	// … or that accumulator plus the result of a string search in the rest of the text
+	if be, ok := ast.Unparen(call.Args[1]).(*ast.BinaryExpr); ok && be.Op == token.ADD {
+		for _, pr := range [][2]ast.Expr{{be.X, be.Y}, {be.Y, be.X}} {
+			acc, ok1 := ast.Unparen(pr[0]).(*ast.Ident)
+			hit, ok2 := ast.Unparen(pr[1]).(*ast.Ident)
+			if !ok1 || !ok2 {
+				continue
+			}
+			why := e.forwardAccumulator(c, info, fd, info.Uses[acc])
+			if why == "-" {
+				continue
+			}
+			if why != "" {
+				return false, "line offsets are relative to the file base: " + why
+			}
+			// the other term holds nothing but string-search results
+			isHit, other := false, false
+			ho := info.Uses[hit]
+			ast.Inspect(fd.Body, func(n ast.Node) bool {
+				as, ok := n.(*ast.AssignStmt)
+				if !ok || len(as.Lhs) != len(as.Rhs) {
+					return true
+				}
+				for i, l := range as.Lhs {
+					if lid, ok := l.(*ast.Ident); ok && (info.Defs[lid] == ho || info.Uses[lid] == ho) {
+						if cl, ok := as.Rhs[i].(*ast.CallExpr); ok && isStringSearch(calleeFunc(info, cl)) {
+							isHit = true
+						} else {
+							other = true
+						}
+					}
+				}
+				return true
+			})
+			if isHit && !other {
+				return true, ""
+			}
+		}
+	}
 	return false, "line offsets are relative to the file base: expected int(r.cursor) - r.base [+ byte index]; found " + o
 }
 
@@ -440,7 +479,8 @@ func (e *Env) forwardAccumulator(c *schema.Ctx, info *types.Info, fd *ast.FuncDe
 		})
 		return found && !other
 	}
-	forward := func(x ast.Expr) bool {
+	var forward func(x ast.Expr) bool
+	forward = func(x ast.Expr) bool {
 		x = ast.Unparen(x)
 		if tv, ok := info.Types[x]; ok && tv.Value != nil {
 			return !strings.HasPrefix(tv.Value.String(), "-") && tv.Value.String() != "0"
@@ -449,6 +489,10 @@ func (e *Env) forwardAccumulator(c *schema.Ctx, info *types.Info, fd *ast.FuncDe
 			if id, ok := cl.Fun.(*ast.Ident); ok && id.Name == "len" {
 				return true
 			}
+		}
+		// a sum of forward terms (a search result plus the byte it found)
+		if be, ok := x.(*ast.BinaryExpr); ok && be.Op == token.ADD {
+			return forward(be.X) && forward(be.Y)
 		}
 		return isSearch(x)
 	}
@@ -478,7 +522,39 @@ func (e *Env) forwardAccumulator(c *schema.Ctx, info *types.Info, fd *ast.FuncDe
 			return "the running offset is rewritten at " + e.Prog.Pos(w.pos) + " by something other than a forward step"
 		}
 	}
-	return ""
+	// when the searched text is cut at each hit (text = text[K:]), the running offset moves by the
+	// same K in that iteration: otherwise every later hit is recorded K - step bytes off
+	var mismatch string
+	ast.Inspect(fd.Body, func(n ast.Node) bool {
+		body := loopBody(n)
+		if body == nil {
+			return true
+		}
+		var cut, step ast.Expr
+		for _, st := range body.List {
+			as, ok := st.(*ast.AssignStmt)
+			if !ok || len(as.Lhs) != 1 || len(as.Rhs) != 1 {
+				continue
+			}
+			if id, ok := as.Lhs[0].(*ast.Ident); ok {
+				if sl, ok := ast.Unparen(as.Rhs[0]).(*ast.SliceExpr); ok && as.Tok == token.ASSIGN && sl.High == nil && sl.Low != nil {
+					if xid, ok := ast.Unparen(sl.X).(*ast.Ident); ok && info.Uses[xid] == info.Uses[id] {
+						if b, ok := info.TypeOf(id).Underlying().(*types.Basic); ok && b.Info()&types.IsString != 0 {
+							cut = sl.Low
+						}
+					}
+				}
+				if info.Uses[id] == v && as.Tok == token.ADD_ASSIGN {
+					step = as.Rhs[0]
+				}
+			}
+		}
+		if cut != nil && step != nil && types.ExprString(ast.Unparen(cut)) != types.ExprString(ast.Unparen(step)) {
+			mismatch = "the text is cut by `" + types.ExprString(cut) + "` at each line break but the running offset moves by `" + types.ExprString(step) + "` (" + e.Prog.Pos(step.Pos()) + "): every later line start is recorded off by the difference"
+		}
+		return true
+	})
+	return mismatch
 }
 
 func isStringSearch(fn *types.Func) bool {
